@@ -122,7 +122,7 @@ def run(ctx):
                        "returned": o2.get("rec"), "truth": o2.get("truth"), "detail": j2[2] if j2 and j2[0] == "violation" else detail,
                        "specs": [list(map(list, s)) for s in c2["specs"]], "tree": tree_json(c2["tree"]),
                        "how": "vh-kfltext redact ; input line = {\"q\": query, \"r\": record}"})
-    coq_ok = not ({"Base/Prelude.v", "KflText/Macro.v", "KflText/Redact.v", "KflText/RJson.v"} & failed)
+    coq_ok = not ({"Base/Prelude.v", "KflText/Macro.v", "KflText/RJv.v", "KflText/Redact.v", "KflText/RJson.v"} & failed)
     if coq_ok:
         correspondence(ctx, cases, res, bool(first))
     mid = cases[len(cases) // 2]
@@ -185,7 +185,7 @@ def correspondence(ctx, cases, res, explained):
     for k in range(0, len(sel), 500):
         chunk = sel[k:k + 500]
         terms = ["(%s,\n  [%s],\n  %s)" % (K.jv_term(rec), "; ".join(K.segs_term(sp) for sp in c["specs"]), K.jv_term(got)) for c, rec, got in chunk]
-        src = (K.COQ_STR_HEAD + "Require Import V.Base.Prelude V.KflText.Macro V.KflText.Redact V.KflText.RJson.\n" + K.COQ_STR_DEF +
+        src = (K.COQ_STR_HEAD + "Require Import V.Base.Prelude V.KflText.Macro V.KflText.RJv V.KflText.Redact V.KflText.RJson.\n" + K.COQ_STR_DEF +
                "Definition cases : list (jv * list (list seg) * jv) := [\n" + ";\n".join(terms) + "].\n"
                "Definition chk (c : jv * list (list seg) * jv) := let '(r, args, out) := c in jv_eqb (redact_json r args) out.\n"
                "Definition M := Eval vm_compute in failing chk cases.\nPrint M.\n")
